@@ -257,8 +257,17 @@ class Fn:
             v = self.globals.get(e.func.id)
             if inspect.isclass(v) and self.ctx.is_tracked(v):
                 return v
-            if e.func.id == "super" and not e.args and self.owner is not None:
-                return None
+            if inspect.isfunction(v) and (v.__module__ or "").startswith("packaging"):
+                try:                                  # the declared return class of a helper of the library
+                    node = ast.parse(textwrap.dedent(inspect.getsource(v))).body[0]
+                    saved = self.globals
+                    self.globals = v.__globals__
+                    try:
+                        return self.ann_class(node.returns)
+                    finally:
+                        self.globals = saved
+                except (OSError, SyntaxError):
+                    return None
             return None
         if isinstance(e, ast.Attribute):
             c = self.static_class(e.value)
